@@ -194,6 +194,10 @@ package bttest
 // the error of an invalid filter argument
 //@ spec invalidArg(ok bool, err error) bool = !ok && err != nil && uf_grpcCode(err) == codes.InvalidArgument
 
+// randFloat is the injected source of randomness of the row-sample filter (a package-level function variable that
+// only tests replace): it has no effect on emulator state; its result is arbitrary.
+//@ typeinv pureglobal randFloat
+
 //@ func filterRow
 //@   property C05
 //@   requires rowOK(r)
